@@ -9,6 +9,7 @@ import (
 	"context"
 	"errors"
 	"fmt"
+	"io"
 	"strings"
 	"testing"
 	"testing/synctest"
@@ -134,6 +135,146 @@ func c01AfterClose(version, how, op string) (obs, sig, msg string) {
 	return "fails at once with a closed-connection error", "", ""
 }
 
+// c01IOCase: the streams behind IOTransport (what StdioTransport and CommandTransport are made of).
+// A request is still being written - the peer has stopped draining our output - when the session
+// ends (the peer's output ends, or we Close): once Wait has returned the call has completed with an
+// error.  The reader's / writer's Close may itself report an error (a descriptor somebody else has
+// closed already): the other stream is closed all the same.
+type c01StallWriter struct {
+	w       io.WriteCloser
+	stalled bool
+	closed  chan struct{}
+	err     error
+}
+
+func (s *c01StallWriter) Write(p []byte) (int, error) {
+	if s.stalled {
+		<-s.closed
+		return 0, io.ErrClosedPipe
+	}
+	return s.w.Write(p)
+}
+
+func (s *c01StallWriter) Close() error {
+	select {
+	case <-s.closed:
+	default:
+		close(s.closed)
+	}
+	s.w.Close()
+	return s.err
+}
+
+type c01ErrCloseReader struct {
+	io.ReadCloser
+	err error
+}
+
+func (r c01ErrCloseReader) Close() error {
+	r.ReadCloser.Close()
+	return r.err
+}
+
+func c01IOCase(side, ends, readerCloseErr, writerCloseErr string) (obs, sig, msg string) {
+	fail := func(s, format string, a ...any) (string, string, string) {
+		return "", "c01 io-transport " + s, fmt.Sprintf(format, a...) + fmt.Sprintf(" [blocked side=%s ended by=%s reader.Close=%s writer.Close=%s]", side, ends, readerCloseErr, writerCloseErr)
+	}
+	mkErr := func(s string) error {
+		if s == "error" {
+			return errors.New("close |0: file already closed")
+		}
+		return nil
+	}
+	ctx := context.Background()
+	c2sR, c2sW := io.Pipe()
+	s2cR, s2cW := io.Pipe()
+	s := NewServer(&Implementation{Name: "srv", Version: "1"}, &ServerOptions{Logger: quietLogger})
+	c := NewClient(&Implementation{Name: "cli", Version: "1"}, &ClientOptions{Logger: quietLogger})
+	var stall *c01StallWriter
+	var st, ct Transport
+	if side == "client" {
+		stall = &c01StallWriter{w: c2sW, closed: make(chan struct{}), err: mkErr(writerCloseErr)}
+		st = &IOTransport{Reader: c2sR, Writer: s2cW}
+		ct = &IOTransport{Reader: c01ErrCloseReader{s2cR, mkErr(readerCloseErr)}, Writer: stall}
+	} else {
+		stall = &c01StallWriter{w: s2cW, closed: make(chan struct{}), err: mkErr(writerCloseErr)}
+		st = &IOTransport{Reader: c01ErrCloseReader{c2sR, mkErr(readerCloseErr)}, Writer: stall}
+		ct = &IOTransport{Reader: s2cR, Writer: c2sW}
+	}
+	ss, err := s.Connect(ctx, st, nil)
+	if err != nil {
+		return fail("setup", "%v", err)
+	}
+	cs, err := c.Connect(ctx, ct, &ClientSessionOptions{ProtocolVersion: "2025-06-18"})
+	if err != nil {
+		return fail("setup", "%v", err)
+	}
+	synctest.Wait()
+	stall.stalled = true // from now on the peer does not drain what this side writes
+	done, waited := false, false
+	var callErr error
+	go func() {
+		if side == "client" {
+			callErr = cs.Ping(ctx, nil)
+		} else {
+			callErr = ss.Ping(ctx, nil)
+		}
+		done = true
+	}()
+	go func() {
+		if side == "client" {
+			cs.Wait()
+		} else {
+			ss.Wait()
+		}
+		waited = true
+	}()
+	synctest.Wait()
+	if done {
+		return fail("setup", "the call returned although its write is stalled: %v", callErr)
+	}
+	closed := false
+	go func() {
+		switch {
+		case ends == "peer-output-ends" && side == "client":
+			s2cW.Close()
+		case ends == "peer-output-ends":
+			c2sW.Close()
+		case side == "client":
+			cs.Close()
+		default:
+			ss.Close()
+		}
+		closed = true
+	}()
+	time.Sleep(time.Minute)
+	synctest.Wait()
+	cleanup := func() {
+		// release whatever is still blocked, so that the verdict is this one and not a stuck bubble
+		stall.Close()
+		c2sW.Close()
+		s2cW.Close()
+		c2sR.Close()
+		s2cR.Close()
+		synctest.Wait()
+		cs.Close()
+		ss.Close()
+		synctest.Wait()
+	}
+	defer cleanup()
+	switch {
+	case !closed:
+		return fail("close-never-returns", "%s has not returned a minute later (Wait returned: %v, call returned: %v)", ends, waited, done)
+	case !waited:
+		return fail("session-never-terminates", "a minute after %s the session's Wait has not returned (call returned: %v)", ends, done)
+	case !done:
+		return fail("call-blocked-after-termination", "the session has terminated (Wait returned) but the call whose request was being written is still blocked")
+	case callErr == nil:
+		return fail("call-succeeded-without-response", "the call returned nil")
+	}
+	return "call failed after termination", "", ""
+}
+
 func TestVerifC01AfterClose(t *testing.T) {
 	env := verifx.LoadEnv("C01")
 	res := env.NewResult()
@@ -159,6 +300,36 @@ func TestVerifC01AfterClose(t *testing.T) {
 					continue
 				}
 				cases.Record(idx, obs, 2, func() string { return fmt.Sprintf("version=%s closed-by=%s op=%s", version, how, op) })
+			}
+		}
+	}
+	ioc := env.NewCases(res, "api/io-transport-blocked-write-at-termination")
+	for _, side := range []string{"client", "server"} {
+		// (a Close of our own is graceful by design: it waits for the outstanding call, which is a matter
+		// of C05; here the session ends because the peer's output ends)
+		for _, ends := range []string{"peer-output-ends"} {
+			for _, rc := range []string{"nil", "error"} {
+				for _, wc := range []string{"nil", "error"} {
+					idx, mine := ioc.Next()
+					if !mine {
+						continue
+					}
+					var obs, sig, msg string
+					desc := fmt.Sprintf("blocked side=%s ended by=%s reader.Close=%s writer.Close=%s", side, ends, rc, wc)
+					func() {
+						defer func() {
+							if r := recover(); r != nil && sig == "" {
+								sig, msg = "c01 io-transport panic-or-leak", fmt.Sprintf("%v [%s]", r, desc)
+							}
+						}()
+						synctest.Test(t, func(t *testing.T) { obs, sig, msg = c01IOCase(side, ends, rc, wc) })
+					}()
+					if sig != "" {
+						ioc.Violate(idx, sig, msg, 2)
+						continue
+					}
+					ioc.Record(idx, obs, 2, func() string { return desc })
+				}
 			}
 		}
 	}
